@@ -72,10 +72,16 @@ func runC17(c *Ctx) {
 	for _, tok := range []string{"busy", "busy token"}[:1+min(c.Scale-1, 1)] {
 		c.run("pongbusy", map[string]string{"token": tok})
 	}
+	for _, tok := range []string{"irc.example.org", "tok with space", "x"} {
+		for _, one := range []string{"0", "1"} {
+			c.run("pingrepeat", map[string]string{"token": tok, "n": fmt.Sprint(2 + c.Rng.Intn(4)), "oneWrite": one, "flood": one})
+			r.Traces++
+		}
+	}
 	toks := []string{"x", ":a b", ":", ":  lead", "123456789", ":é ü", "a b c", ":" + strings.Repeat("t", 300), "srv.example.org", "::x"}
 	for i := 0; i < 120*c.Scale; i++ {
-		in := map[string]string{"nick": c.Rng.Pick([]string{"me", "Nick[1]", "a", "a_nick_of_twenty_nine_chars_xy", "exactly_thirty_characters_long"}), "check": "c17"}
-		in["collide"] = c.Rng.Pick([]string{"", "", "", "suffix:-x", "fixed:other", "fixed:other", "empty", "fixed:", "suffix:"})
+		in := map[string]string{"nick": c.Rng.Pick([]string{"me", "Nick[1]", "a", "a_nick_of_twenty_nine_chars_xy", "exactly_thirty_characters_long", "gu`est", "x-y|z^", "q{w}e\\"}), "check": "c17"}
+		in["collide"] = c.Rng.Pick([]string{"", "", "", "suffix:-x", "fixed:other", "fixed:other", "empty", "fixed:", "suffix:", "suffix:`", "suffix:|-"})
 		if c.Rng.Chance(15) {
 			in["notrack"] = "1"
 		}
@@ -175,6 +181,62 @@ func init() {
 			c.R.Violation("pongbusy.delayed", hin, fmt.Sprintf("PONG %q took %d ms while the flood limiter was saturated (idle: %d ms)", in["token"], busy, idle), "< 700 ms", "the PONG is written promptly, independent of the flood limiter")
 		}
 		c.R.Count("pongbusy/"+in["token"], true, "pongbusy")
+	}
+}
+
+// "for EVERY PING received … exactly one PONG": runs of PINGs with the SAME token, back to back with nothing written in between
+// (the ircd's own name is the usual token, so every keep-alive PING of a connection looks the same)
+func init() {
+	runners["pingrepeat"] = func(c *Ctx, in map[string]string) {
+		hin := hexIn(in)
+		cl := girc.New(girc.Config{Server: "irc.example.org", Port: 6667, Nick: "me", User: "me", Name: "me", AllowFlood: in["flood"] != "0"})
+		d, err := newDispClientFor(cl)
+		if err != nil {
+			c.R.Mismatch("pingrepeat.setup", hin, err.Error(), "")
+			return
+		}
+		defer func() { go d.close() }()
+		n := atoiDef(in["n"], 3)
+		tok := in["token"]
+		want := (&girc.Event{Command: "PONG", Params: []string{tok}}).String()
+		// drain whatever is pending, then the run
+		var lines []string
+		for i := 0; i < n; i++ {
+			lines = append(lines, "PING :"+tok)
+		}
+		if in["oneWrite"] == "1" {
+			d.send(strings.Join(lines, "\r\n"))
+		} else {
+			for _, l := range lines {
+				d.send(l)
+			}
+		}
+		got, ok := 0, false
+		d.send("PING :end-of-run")
+		t := time.After(5 * time.Second)
+	wait:
+		for {
+			select {
+			case p, open := <-d.pongs:
+				if !open {
+					break wait
+				}
+				if p == want {
+					got++
+				}
+				if strings.HasSuffix(p, "end-of-run") {
+					ok = true
+					break wait
+				}
+			case <-t:
+				break wait
+			}
+		}
+		if !ok || got != n {
+			c.R.Violation("c17.ping_repeat", hin, fmt.Sprintf("%d PONGs (%q expected each) for %d PINGs; final barrier answered=%v", got, want, n, ok), fmt.Sprint(n),
+				"every PING received is answered by exactly one PONG with the same token, also when the same token arrives several times in a row")
+		}
+		c.R.Count("pingrepeat/"+fmt.Sprint(in), true, "ping-repeat")
 	}
 }
 
